@@ -45,7 +45,11 @@ MANIFEST = dict(
          "complete. Shutdown.tla composes main/engine/pool/await/instances/aggregator/Exit with signals at every "
          "position (before signal.Notify, first, second, untrapped), the interrupt / tasks timers, slow or blocking sinks "
          "and instances parked in a blocking Report: an exit may lack data ONLY after one of four forced causes "
-         "(ExitComplete with the exact Exempt set), every exit invents nothing, a stopped process ends (liveness). The "
+         "(ExitComplete with the exact Exempt set), every exit invents nothing, a stopped process ends (liveness); of "
+         "those a timer excuses missing data only when the sink blocks: with shots that hang past the interrupt timeout "
+         "the aggregator - stopped by the run cancel itself, not by the end of the instances - has flushed and closed "
+         "(TimeoutExitFlushed; bound by engine runs whose guns do not come back and by processes whose target stops "
+         "answering before SIGTERM). The "
          "real code answers to the same operators (spec/Phout.tla): every line the real aggregators hand to their sink "
          "must be PhoutLine(s) / decode to s of a not yet written report (tags with TAB/LF/CR as TagText says), the "
          "counts must add up at Run return, a failing recording sink must make Run fail, and real processes stopped by "
@@ -67,7 +71,7 @@ MANIFEST = dict(
 )
 
 
-ENGINE_MODES = ("engine", "cancel", "provfail", "staged")
+ENGINE_MODES = ("engine", "cancel", "provfail", "staged", "hang")
 
 # ------------------------------------------------------------------------------------------ build
 
@@ -125,6 +129,11 @@ POS = [
     # instance parked for ever in phout's Report; jsonlines on a working sink needs no timer
     ("ShutdownMC", "Shutdown_live.cfg", False), ("ShutdownMC", "Shutdown_live_drop.cfg", False),
     ("ShutdownMC", "Shutdown_live_drop_fastsink_notimeout.cfg", False),
+    # a shot that hangs (Hangs) + timers that are long against everything the program does by itself (PatientTimers):
+    # a TIMER exit with a working sink still leaves everything reported before the stop flushed and closed
+    # (TimeoutExitFlushed) - the aggregator is stopped by the run cancel, it does not wait for the instances
+    ("ShutdownMC", "Shutdown_exh_hang.cfg", True), ("ShutdownMC", "Shutdown_exh_hang_drop.cfg", False),
+    ("ShutdownMC", "Shutdown_exh_hang_slow_small.cfg", False),
     # engine await loop composed with the aggregator (PoolAgg.tla)
     ("PoolAggMC", "PoolAgg_exh_nofault.cfg", True), ("PoolAggMC", "PoolAgg_exh_small.cfg", True),
     ("PoolAggMC", "PoolAgg_exh_schedend.cfg", False),
@@ -147,6 +156,10 @@ NEG = [
     ("ShutdownMC", "Shutdown_neg_nowait.cfg", True), ("ShutdownMC", "Shutdown_neg_reach.cfg", False),
     # a first signal while the tasks of a FAILED run are awaited ends the process (seed C06-6)
     ("ShutdownMC", "Shutdown_neg_errsig.cfg", True),
+    # the aggregator on a context of its own that ends only when every instance was awaited (seed C06-12): a hung shot
+    # + the interrupt timeout = exit with the reports still in memory
+    ("ShutdownMC", "Shutdown_neg_aggwaits.cfg", True), ("ShutdownMC", "Shutdown_neg_aggwaits_drop.cfg", False),
+    ("ShutdownMC", "Shutdown_neg_hangreach.cfg", False),
     # every exempt cause of a forced exit really loses data (the list in ExitComplete is minimal) ...
     ("ShutdownMC", "Shutdown_neg_early.cfg", True), ("ShutdownMC", "Shutdown_neg_untrapped.cfg", True),
     ("ShutdownMC", "Shutdown_neg_second.cfg", True), ("ShutdownMC", "Shutdown_neg_timeout.cfg", True),
@@ -323,6 +336,7 @@ def describe_sig(evs, ev, inv, bad):
     scen = st.get("scen") or ""
     how = {"second": "; a second signal followed %s ms later" % st.get("second_ms"),
            "timeout": "; the sink takes no bytes any more from the signal on",
+           "hang": "; the target stopped answering 150 ms before the signal (the shots in flight hang), the result is a plain file",
            "startup": " (sent %s ms after the process was started, without waiting for a report)" % st.get("after_ms"),
            "full": "; the result destination is /dev/full", "nodir": "; the result destination lies in a directory that does not exist",
            "grpc": "; grpc gun", "mixed": "; one phout and one jsonlines pool",
@@ -395,6 +409,7 @@ def run(tier, v):
     agg_path = os.path.join(d, "agg.ndjson")
     nsig = 500 if thorough else 16
     nruns, neng, ncan, nstress, nprov, nother, nstaged, nfault = (5000, 300, 1500, 40, 700, 400, 400, 1200) if thorough else (300, 24, 40, 6, 24, 30, 20, 80)
+    nhang = 300 if thorough else 12
 
     # everything that does not depend on something else runs at the same time: the design-level TLC runs, the
     # process-level driver (mostly waiting), the in-process driver + its two trace validations, the format cases,
@@ -402,8 +417,9 @@ def run(tier, v):
     def in_process(vdrive):
         vlib.run_driver(vdrive, ["agg", "-out", agg_path, "-runs", str(nruns), "-engine", str(neng), "-cancel", str(ncan),
                                  "-dropstress", str(nstress), "-provfail", str(nprov), "-other", str(nother), "-staged", str(nstaged),
-                                 "-fault", str(nfault)], timeout=3000)
+                                 "-fault", str(nfault), "-hang", str(nhang)], timeout=3000)
         rows = vlib.read_ndjson(agg_path)
+        machinery_events(rows, "agg")
         # real engine runs (hooks of the await loop merged with report / line events) answer to PoolAgg's trace
         # specification, which re-uses every action of TraceAggregator; direct runs to TraceAggregator itself
         eng_runs = {r["run"] for r in rows if r["ev"] == "Run" and r["mode"] in ENGINE_MODES}
@@ -416,7 +432,8 @@ def run(tier, v):
     def process_level(vdrive, vpandora):
         vlib.run_driver(vdrive, ["aggsig", "-vpandora", vpandora, "-out", sig_path, "-runs", str(nsig),
                                  "-par", "6" if thorough else "4", "-fail", "80" if thorough else "4",
-                                 "-scen", "143" if thorough else "13", "-long", "1" if thorough else "0"], 3000)
+                                 "-scen", "143" if thorough else "13", "-long", "1" if thorough else "0",
+                                 "-hangs", "40" if thorough else "4"], 3000)
         srows = vlib.read_ndjson(sig_path)
         machinery_events(srows, "aggsig")
         return srows, validate(v, "TraceShutdown", srows, d, describe_sig, "signal")
@@ -464,7 +481,8 @@ def run(tier, v):
         "in_process_runs": {"validated": agg_validated, "events": len(rows), "reports": nrep, "lines": nlines,
                             "dropped": ndrop, "runs_with_drops": droprun, "engine_runs": neng, "engine_runs_cancelled_midway": ncan,
                             "modes": {m: sum(1 for r in rows if r["ev"] == "Run" and r["mode"] == m)
-                                      for m in ("normal", "late", "burst", "engine", "cancel", "provfail", "staged", "dropstress")},
+                                      for m in ("normal", "late", "burst", "engine", "cancel", "provfail", "staged", "hang", "dropstress")},
+                            "hang_runs_aggregator_returned_while_every_shot_hung": sum(1 for r in rows if r["ev"] == "AggReturned"),
                             "engine_runs_provider_failed_midway": nprov,
                             "kinds": {k: sum(1 for r in rows if r["ev"] == "Run" and r["kind"] == k)
                                       for k in ("phout", "jsonlines", "log", "discard", "test")}, "engine_hook_events": nhooks,
@@ -481,7 +499,9 @@ def run(tier, v):
                         "error_path_runs_signalled_while_awaiting_tasks": sum(1 for e in exits if starts[e["run"]].get("fail") and e.get("signals")),
                         "forced": sum(1 for e in exits if e.get("forced")),
                         "scenarios": {sc: sum(1 for r in srows if r["ev"] == "Start" and r.get("scen") == sc)
-                                      for sc in ("second", "timeout", "startup", "hup", "quit", "full", "nodir", "grpc", "mixed", "backpr")},
+                                      for sc in ("second", "timeout", "startup", "hup", "quit", "full", "nodir", "grpc", "mixed", "backpr", "hang")},
+                        "hang_runs_ended_by_interrupt_timeout_with_aggregator_returned": sum(
+                            1 for e in exits if starts[e["run"]].get("scen") == "hang" and e.get("timeout_exit") and e.get("agg_returned")),
                         "exits_by_interrupt_timeout": sum(1 for e in exits if e.get("timeout_exit")),
                         "exits_by_second_signal": sum(1 for e in exits if e.get("another_signal") and e.get("signals", 0) >= 2),
                         "killed_by_default_action": sum(1 for e in exits if e.get("killed")),
